@@ -27,9 +27,9 @@ _COMMON_NOTE = ("Trusted: Lean kernel + the three standard axioms; the hand tran
                 "'Never touched after its destruction' is a THEOREM only for the sources of copy constructions and assignments (the only reads in the event log); "
                 "key comparisons, hashing and == walks of the lookup code are not events: that they touch no destroyed object is checked on the real code by the "
                 "harness ledger (counter u) only - the model contributes linked_objects_live (everything reachable through a container is live). "
-                "MultiMap::insert(hint) is driven only with keys not yet present (inside a run of equal keys the position depends on the tree shape). Not driven: List::sort (swaps "
-                "payloads between nodes: no stored element is constructed or destroyed, values change address - outside C05's insert/remove wording), find() / contains() / count() / operator== as operations "
-                "(find runs inside insert / remove(key) and in the C05 observation of every element after every op), PoolList::append with 3..7 arguments (same template body as 0..2). "
+                "MultiMap::insert(hint) is driven with present keys too, except the one tree-shape dependent case (key not below the hinted item and equal to its successor's key). "
+                "Not driven: find() / contains() / count() / operator== as operations "
+                "(find runs inside insert / remove(key) and in the C05 observation of every element after every op). The comparisons of List::sort are not events of the model; on the real code their outcomes are dictated by the harness (L.sortwith). "
                 "The client sources Server.cpp / Future.cpp / Callback.cpp are not compiled into this harness (scripted client patterns + pointer_valid_until_removed stand for them; the real code runs under C13/C14, C10, C12). Allocation never fails; "
                 "element constructors do not throw. The model mirrors the REPAIRED code (fixes/life/0001..0004: D2 self-assignment, D3 Array alias, "
                 "D4 List self-insert, D5 MultiMap copy); on a tree without these patches the check reports them as violations.")
@@ -51,7 +51,11 @@ MANIFEST = {
                 "reference operand = same step with a temporary copy, up to the log) with Map/HashMap/List operation-level corollaries, "
                 "set_append_self_noop, set_remove_self_empties, and the literal refinement forms list_insert_self_refines, array_append_self_refines, "
                 "set_append_self_refines, set_remove_self_refines, map_insert_self_refines (op(c, c) = copy t from c; op(c, t)). No OPEN statement, no _partial theorem. "
-                "The model has 52 operations incl. PoolMap::insert(position, key) and the re-entrant pool removal (element destructor removes another element of the same pool). "
+                "The model has 53 operations incl. PoolMap::insert(position, key), the re-entrant pool removal (element destructor removes another element of the same pool) and "
+                "List::sort() under an ARBITRARY comparator (the quicksort of List.hpp simulated on node indices, comparison outcomes from an oracle list): sort_only_assigns (any state, any comparator: "
+                "item lists, free lists, blocks, arrays unchanged; every event is an assignment to the value object of a node of the list from such an object or from the temporary of QuickSort::swap - "
+                "one temporary per swap call is all sort creates; no stored element is constructed or destroyed; every object touched is an item of the list, hence live), sort_compiles (the fuel suffices, "
+                "every step stays inside [left, right]). "
                 "'Exactly once' is a statement about exception-free C++ (no throwing constructor / assignment, allocation never fails). "
                 "Tie to the current headers on every run: exhaustive small scope per container, Array alias ops at every size/capacity boundary, a bucket-chain stream "
                 "(HashMap/HashSet/PoolMap with explicit bucket counts 1..5, keys of one bucket linked by append/prepend/positional insert in every order, then clear/assign/swap/copy/remove, "
@@ -83,7 +87,12 @@ MANIFEST = {
                 "objects destroyed), pointer_valid_step, insertions_and_swaps_never_invalidate, clear_and_destruction_remove_own_elements, insert_links_one_item (an insertion links exactly one new item "
                 "in an unoccupied slot or leaves the item list alone), insert_own_value_is_self_assignment (m.insert(key, *m.find(key)) on Map/HashMap = exactly one self-assignment event of the value "
                 "object, memory / items / blocks unchanged: with a value type whose self-assignment is the identity nothing moves - the nested instantiation Map<K, List<T>> itself is not modelled). "
-                "Re-entrant removal (the destructor of a pool element removes another element of the same pool) is an operation of the model (pRemoveChain / qRemoveChain) and of the harness. The harness checks on the real "
+                "Re-entrant removal (the destructor of a pool element removes another element of the same pool) is an operation of the model (pRemoveChain / qRemoveChain) and of the harness. "
+                "sort_keeps_nodes_swaps_values (List::sort under any comparator removes nothing, every element is Kept - pointers and iterators stay valid - but the value objects are assigned to: a pointer may see "
+                "another value afterwards; sort moves values, not nodes). Which address an insert takes: insert_takes_free_head (head of the LIFO free list, else the first hand-out slot of a never-allocated block), "
+                "remove_then_insert_reuses, slot_reused_only_after_removal (the slot of a new item is the slot of no element of any container before), and in PropsStableMech the tree-level statements of area Avl "
+                "map_alloc_lifo / map_insert_takes_free_head / map_remove_then_insert_reuses. The nested instantiations Map<K, List<T>> and HashMap<K, List<T>> are driven on the real headers "
+                "(harness/life_nested.cpp against a Python reference, no Lean model): m.insert(key, *m.find(key)) must construct and move nothing. The harness checks on the real "
                 "headers after every op, for every element of all seven containers, that it is the same object (serial) at the address recorded in the ledger, "
                 "that it still carries the key / payload it had when first seen (an element assigned into another node counts as moved), that the iterator saved "
                 "when it was first seen and find(key) still designate it, or that it was constructed by this very op; assignments to and copies from "
@@ -1066,7 +1075,7 @@ def check(ctx):
         "allocation never fails; element constructors / assignments do not throw",
         "the element type's comparison, hash and copy operations have no side effect on containers (they only touch the ledger)",
         "object locations are canonicalised as (block serial, slot index, field) / sentinel / caller temporary; raw addresses are never compared",
-        "AVL shape and hash chains are not part of the model (iteration order and lookup by payload are); MultiMap::remove(key) removes the first of the equal keys (MultiMap::find as repaired by area Avl, fixes/avl); MultiMap::insert(hint) only with a fresh key; List::sort is not driven",
+        "AVL shape and hash chains are not part of the model (iteration order and lookup by payload are); MultiMap::remove(key) removes the first of the equal keys (MultiMap::find as repaired by area Avl, fixes/avl); MultiMap::insert(hint) not with a key equal to the successor's key of a hinted item that is not above it",
     ]
     proof_ok = C.proof_stage(ctx, PROPS_BY[ctx.prop], [DRIVER], gen=gen, leanchecker=(ctx.tier == "thorough"))
     ctx.cov["open_statements"] = list(OPEN[ctx.prop])
